@@ -39,6 +39,11 @@ STREAMS = {
 }
 DURATION_S = N_SEG * 4
 
+# streams with SHORT segments (around the validator's two-second availability margin): name -> video ticks per
+# segment at V_TS; audio has the same duration at A_TS (96 samples per segment); 12 segments each
+SHORT = {"c18s05": 120, "c18s10": 240, "c18s19": 456, "c18s20": 480, "c18s21": 504}
+SHORT_SEGMENTS = 12
+
 
 def largesize_mdat(data: bytes) -> bytes:
     """rewrite every top-level mdat with the 64-bit largesize header; fix the trun data_offset of the moof
@@ -107,6 +112,12 @@ def build(name: str) -> dict:
     elif name == "c18lg":
         v = mp4synth.make_track("video", 10_000_000, [40_000_000] * 2, samples_per_segment=4, seed=193, track_id=1)
         a = mp4synth.make_track("audio", 1000, [4000] * 2, samples_per_segment=4, seed=194, track_id=2)
+    elif name in SHORT:
+        vd = SHORT[name]
+        ad = vd * (A_TS // V_TS)
+        v = mp4synth.make_track("video", V_TS, [vd] * SHORT_SEGMENTS, samples_per_segment=4, seed=195, track_id=1)
+        a = mp4synth.make_track("audio", A_TS, [ad] * SHORT_SEGMENTS, samples_per_segment=96, seed=196, track_id=2)
+        return {f"{name}_v1": v, f"{name}_a1": a}
     else:
         raise KeyError(name)
     suffix = "_enc" if STREAMS[name]["enc"] else ""
@@ -119,11 +130,12 @@ _READY: set = set()
 def ensure(app, names=None) -> list:
     """register the layout streams (once per process); returns the names that registered"""
     ok = []
-    for name in (names or list(STREAMS)):
+    for name in (names or (list(STREAMS) + list(SHORT))):
         if name not in _READY:
             tracks = build(name)
             video = next(k for k in tracks if "_v1" in k)
-            mp4synth.register(app, name, f"C18 layout: {STREAMS[name]['what']}", tracks, timing_from=video)
+            what = STREAMS[name]["what"] if name in STREAMS else f"short segments ({SHORT[name]}/{V_TS} s)"
+            mp4synth.register(app, name, f"C18 layout: {what}", tracks, timing_from=video)
             _READY.add(name)
         ok.append(name)
     return ok
